@@ -21,6 +21,7 @@ def run(chk, tier):
     chk.guarded(c14.r_resolve_year_map, P, tier)
     from props import c10
     chk.guarded(c10.r_fraction_scale, P, tier)
+    chk.guarded(c12.r_composites, P, tier)       # %r / %c / %x / %X item lists: the parser reads the same lists (Space vs Literal matters only when parsing)
     chk.guarded(c12.r_numeric_writers, P, tier)
     chk.guarded(c12.r_offset_writer_map, P, tier)
     chk.guarded(c12.r_two_digit_writer_map, P, tier)
